@@ -1,4 +1,5 @@
 SPECIFICATION FairSpec
+CONSTANT Restore = TRUE
 CONSTANT MaxRules = 4
 INVARIANT NoLeak
 INVARIANT Accounting
